@@ -187,6 +187,29 @@ def batch_slot_set_post(bobj, lst, value, result):
     return got is not None and result.output is None and result.op == "sbs" and got == {"hash": hash_token(bobj._prefab_name), "slot": bobj._slot_index, "lst": enum_token(lst), "val": value}
 
 
+def batch_load_post(bobj, lt, bm, out, result):
+    got = accessed(result)
+    if got is None or result.output is not out:
+        return False
+    if bobj._name is None:
+        return result.op == "lb" and got == {"hash": hash_token(bobj._prefab_name), "lt": enum_token(lt), "bm": enum_token(bm)}
+    return result.op == "lbn" and got == {"hash": hash_token(bobj._prefab_name), "namehash": hash_token(bobj._name), "lt": enum_token(lt), "bm": enum_token(bm)}
+
+
+def batch_slot_load_post(bobj, lst, bm, out, result):
+    got = accessed(result)
+    if got is None or result.output is not out:
+        return False
+    if bobj._name is None:
+        return result.op == "lbs" and got == {"hash": hash_token(bobj._prefab_name), "slot": bobj._slot_index, "lst": enum_token(lst), "bm": enum_token(bm)}
+    return result.op == "lbns" and got == {"hash": hash_token(bobj._prefab_name), "namehash": hash_token(bobj._name), "slot": bobj._slot_index, "lst": enum_token(lst), "bm": enum_token(bm)}
+
+
+def load_harness(cls, field):
+    src = f"def h(obj, {field}, bm, out):\n    return {cls}(obj, {field})._load(bm)(out)\n"
+    return lambda eng: X.vfun(ast.parse(src).body[0], f"harness:{cls}._load")
+
+
 def _enum_token_sym(eng, st, args, kwargs, origin):
     (a,) = args
     return [(st, VOpq("enumtoken:" + a.tag, a.t))]
@@ -238,6 +261,10 @@ def emitter_contracts():
                        post={"sets_the_logic_type_on_the_batch_named_by_prefab_and_name": batch_set_post}, world=w, classes=cl, describe=desc("_DevicesLogicType._set")))
     cs.append(Contract(name="types._DevicesSlotType._set", fun=harness("_DevicesSlotType", "_set", ["lst"], ["value"]), params=[("obj", [k_batchobj(False)]), ("lst", [k_enum("lst")]), ("value", vals)], pre=batch_pre,
                        post={"sets_the_slot_value_on_the_batch": batch_slot_set_post}, world=w, classes=cl, describe=desc("_DevicesSlotType._set")))
+    cs.append(Contract(name="types._DevicesLogicType._load", fun=load_harness("_DevicesLogicType", "lt"), params=[("obj", batches), ("lt", [k_enum("lt")]), ("bm", [k_enum("bm")]), ("out", [k_reg()])],
+                       post={"loads_the_logic_type_of_the_batch_named_by_prefab_and_name": batch_load_post}, raises={"ValueError": True}, world=w, classes=cl, describe=desc("_DevicesLogicType._load")))
+    cs.append(Contract(name="types._DevicesSlotType._load", fun=load_harness("_DevicesSlotType", "lst"), params=[("obj", batches), ("lst", [k_enum("lst")]), ("bm", [k_enum("bm")]), ("out", [k_reg()])],
+                       post={"loads_the_slot_value_of_the_batch": batch_slot_load_post}, world=w, classes=cl, describe=desc("_DevicesSlotType._load")))
     for c in cs:
         c.feas_timeout_ms = 300
     return cs
